@@ -111,6 +111,29 @@ fn arr<T: Val>(shape: &[usize]) -> Array3<T> {
     Array3::from_shape_fn((shape[0], shape[1], shape[2]), |(i, j, k)| T::of((i * shape[1] + j) * shape[2] + k))
 }
 
+/// The same logical array (index -> token, which is all Export.tla knows about) in other memory layouts: the
+/// specification's `data` is a function of the index triple, so every layout ndarray can hand over must give the same file.
+fn same_logical<T: Val>(a: &Array3<T>, shape: &[usize]) -> bool {
+    a.dim() == (shape[0], shape[1], shape[2]) && a.indexed_iter().all(|((i, j, k), v)| T::same(*v, T::of((i * shape[1] + j) * shape[2] + k)))
+}
+const LAYOUTS: [&str; 5] = ["row-major", "column-major", "permuted (observation-major storage)", "reversed axes", "strided view"];
+fn arr_layout<T: Val>(shape: &[usize], layout: usize) -> Array3<T> {
+    use ndarray::{s, ShapeBuilder};
+    let (a, b, d) = (shape[0], shape[1], shape[2]);
+    let tok = |i: usize, j: usize, k: usize| T::of((i * b + j) * d + k);
+    match layout {
+        0 => arr::<T>(shape),
+        1 => Array3::from_shape_fn((a, b, d).f(), |(i, j, k)| tok(i, j, k)),
+        2 => Array3::from_shape_fn((b, a, d), |(j, i, k)| tok(i, j, k)).permuted_axes([1, 0, 2]),
+        3 => Array3::from_shape_fn((d, b, a), |(k, j, i)| tok(i, j, k)).reversed_axes(),
+        _ => {
+            // every second observation and every second dimension of a larger row-major array: not contiguous
+            let big = Array3::from_shape_fn((a, 2 * b, 2 * d + 1), |(i, j, k)| if j % 2 == 0 && k % 2 == 1 { tok(i, j / 2, k / 2) } else { T::of(3) });
+            big.slice_move(s![.., ..;2, 1..;2])
+        }
+    }
+}
+
 struct Acc {
     evals: u64,
     ok_cases: u64,
@@ -210,9 +233,16 @@ fn run_case(c: &Value, dir: &str, acc: &mut Acc) {
         ($t:ty, $save:ident, $reader:expr) => {{
             let path = if c["path"] == "isdir" { base.clone() } else { format!("{base}.{}", $reader) };
             let _ = std::fs::remove_file(&path);
-            let a = arr::<$t>(&shape);
-            let r = catch(|| strerr($save(&a, &path)));
-            verify::<$t>(c, <$t as Val>::NAME, r, &path, $reader, acc);
+            for (li, lname) in LAYOUTS.iter().enumerate() {
+                let _ = std::fs::remove_file(&path);
+                let a = arr_layout::<$t>(&shape, li);
+                if !same_logical::<$t>(&a, &shape) {
+                    crate::util::tool_error(&format!("c17: layout {lname} does not hold the same logical array"));
+                }
+                let r = catch(|| strerr($save(&a, &path)));
+                let variant = if li == 0 { <$t as Val>::NAME.to_string() } else { format!("{} {lname}", <$t as Val>::NAME) };
+                verify::<$t>(c, &variant, r, &path, $reader, acc);
+            }
         }};
     }
     match ep {
